@@ -240,7 +240,7 @@ func (c *c07) RunDesc(desc json.RawMessage) engine.Result {
 	}
 	res.Outcome = "equal"
 	if len(cs.Devs) == 0 && len(cs.Restarts) == 2 && cs.Restarts[0] == 3 {
-		res.Sample = sim.MustJSON(map[string]interface{}{"variant": cs.Variant, "restarts_after": cs.Restarts, "consensus_calls": len(la), "final": la[len(la)-1]})
+		res.Sample = sim.MustJSON(map[string]interface{}{"variant": cs.Variant, "restarts_after": cs.Restarts, "consensus_calls": len(la), "final": la[len(la)-1], "history": describeBlocks(h)})
 	}
 	return res
 }
